@@ -170,6 +170,16 @@ func TestVerifPool(t *testing.T) {
 	defer func() { vw.Flush(); vf.Close() }()
 	vpViewEnc = json.NewEncoder(vw)
 	pw, ew := bufio.NewWriter(pf), bufio.NewWriter(ef)
+	// block creation that panics is recorded and ends the recorder: the database may be left with an open transaction
+	vpAbort = func() {
+		pw.Flush()
+		ew.Flush()
+		vw.Flush()
+		pf.Close()
+		ef.Close()
+		vf.Close()
+		os.Exit(0)
+	}
 	saved := params.UserVerifyTxn
 	defer func() { params.UserVerifyTxn = saved }()
 	for h := 0; h < nhist; h++ {
@@ -182,6 +192,17 @@ func TestVerifPool(t *testing.T) {
 }
 
 var vpViewEnc *json.Encoder
+var vpAbort func()
+
+// vpGuard runs a block-creating call; a panic is turned into its text
+func vpGuard(f func() error) (err error, panicked string) {
+	defer func() {
+		if r := recover(); r != nil {
+			panicked = fmt.Sprint(r)
+		}
+	}()
+	return f(), ""
+}
 
 func vpHistory(t *testing.T, penc, eenc *json.Encoder, hist int, rng *rand.Rand, nrounds int) {
 	dir, err := ioutil.TempDir("", "verifpool")
@@ -797,11 +818,18 @@ func vpHistory(t *testing.T, penc, eenc *json.Encoder, hist int, rng *rand.Rand,
 					r := record(P, "create")
 					r.P, r.MaxBlock, r.MaxTxns = vpP(crt), cfg.MaxBlockTransactionsSize, coin.MaxBlockTransactions
 					var sb coin.SignedBlock
-					cerr := P.db.View("verif create probe", func(tx *dbutil.Tx) error {
-						var err error
-						sb, err = P.v.createBlock(tx, now+10)
-						return err
+					cerr, pan := vpGuard(func() error {
+						return P.db.View("verif create probe", func(tx *dbutil.Tx) error {
+							var err error
+							sb, err = P.v.createBlock(tx, now+10)
+							return err
+						})
 					})
+					if pan != "" {
+						r.Res, r.Err, r.Post = "panic", pan, r.Pre
+						emit(r)
+						vpAbort()
+					}
 					r.Post, _ = P.poolEntries(t)
 					if cerr != nil {
 						r.Res, r.Err = "none", cerr.Error()
@@ -854,11 +882,18 @@ func vpHistory(t *testing.T, penc, eenc *json.Encoder, hist int, rng *rand.Rand,
 		r := record(P, "create")
 		r.P, r.MaxBlock, r.MaxTxns = vpP(crt), cfg.MaxBlockTransactionsSize, coin.MaxBlockTransactions
 		var sb coin.SignedBlock
-		cerr := P.db.View("verif create", func(tx *dbutil.Tx) error {
-			var err error
-			sb, err = P.v.createBlock(tx, now)
-			return err
+		cerr, pan := vpGuard(func() error {
+			return P.db.View("verif create", func(tx *dbutil.Tx) error {
+				var err error
+				sb, err = P.v.createBlock(tx, now)
+				return err
+			})
 		})
+		if pan != "" {
+			r.Res, r.Err, r.Post = "panic", pan, r.Pre
+			emit(r)
+			vpAbort()
+		}
 		r.Post, _ = P.poolEntries(t)
 		if cerr != nil {
 			r.Res, r.Err = "none", cerr.Error()
@@ -965,7 +1000,17 @@ func vpHistory(t *testing.T, penc, eenc *json.Encoder, hist int, rng *rand.Rand,
 		r := record(P, "create_execute")
 		r.P, r.MaxBlock, r.MaxTxns = vpP(crt), cfg.MaxBlockTransactionsSize, coin.MaxBlockTransactions
 		pre := P.state(t)
-		sb, cerr := P.v.CreateAndExecuteBlock()
+		var sb coin.SignedBlock
+		cerr, pan := vpGuard(func() error {
+			var err error
+			sb, err = P.v.CreateAndExecuteBlock()
+			return err
+		})
+		if pan != "" {
+			r.Res, r.Err, r.Post = "panic", pan, r.Pre
+			emit(r)
+			vpAbort()
+		}
 		r.Post, _ = P.poolEntries(t)
 		if cerr != nil {
 			r.Res, r.Err = "none", cerr.Error()
